@@ -49,12 +49,16 @@ var c13Names = []string{"qxa", "qxb"}
 // operations
 
 type c13Op struct {
-	kind string // P I U X E Z V W S F M K G O
+	kind string // P I U X E Z V W S F M K G O   Q D H N T
 	a, b int    // P: a=pkg; I: a=pkg; U/X: a=obj b=pkg; E/Z: a=pkg b=name; V/S/F/G: a=name b=tag; W/M/K: a=name
-	us   []int  // P: uses
-	ex   []int  // P: exports
-	one  bool   // U/X/E/Z: written in the one-argument form (acts on the current package)
-	exp  bool   // G: exported (FuncDoc.NoExport = false)
+	// Q (setq q:n v / q::n), D (defvar q:n [v] / q::n), H (defun q::n), N (unintern 'n 'q), T (intern "n" 'q):
+	// a=pkg b=name v=tag (D: -1 = no initial value) priv = written with two colons
+	v    int
+	priv bool
+	us   []int // P: uses
+	ex   []int // P: exports
+	one  bool  // U/X/E/Z: written in the one-argument form (acts on the current package)
+	exp  bool  // G: exported (FuncDoc.NoExport = false)
 }
 
 func c13Ints(xs []int) string {
@@ -84,6 +88,17 @@ func (o c13Op) token() string {
 			return fmt.Sprintf("%s%d:%d:1", o.kind, o.a, o.b)
 		}
 		return fmt.Sprintf("%s%d:%d", o.kind, o.a, o.b)
+	case "Q", "D":
+		pr := 0
+		if o.priv {
+			pr = 1
+		}
+		if o.kind == "D" && o.v < 0 {
+			return fmt.Sprintf("D%d:%d:%d:-", o.a, o.b, pr)
+		}
+		return fmt.Sprintf("%s%d:%d:%d:%d", o.kind, o.a, o.b, pr, o.v)
+	case "H":
+		return fmt.Sprintf("H%d:%d:%d", o.a, o.b, o.v)
 	}
 	return fmt.Sprintf("%s%d:%d", o.kind, o.a, o.b)
 }
@@ -138,13 +153,28 @@ func c13ParseOp(tok string) (o c13Op, ok bool) {
 			return o, false
 		}
 		o.a, o.b, o.exp = num(parts[0]), num(parts[1]), parts[2] == "1"
+	case "Q", "D":
+		if len(parts) != 4 {
+			return o, false
+		}
+		o.a, o.b, o.priv = num(parts[0]), num(parts[1]), parts[2] == "1"
+		if o.kind == "D" && parts[3] == "-" {
+			o.v = -1
+		} else {
+			o.v = num(parts[3])
+		}
+	case "H":
+		if len(parts) != 3 {
+			return o, false
+		}
+		o.a, o.b, o.v = num(parts[0]), num(parts[1]), num(parts[2])
 	case "U", "X", "E", "Z":
 		if len(parts) == 3 && parts[2] == "1" {
 			o.one = true
 			parts = parts[:2]
 		}
 		fallthrough
-	case "V", "S", "F":
+	case "V", "S", "F", "N", "T":
 		if len(parts) != 2 {
 			return o, false
 		}
@@ -211,6 +241,24 @@ func (o c13Op) lisp(suffix string) string {
 		return fmt.Sprintf("(fmakunbound '%s)", c13Names[o.a])
 	case "G":
 		return fmt.Sprintf("#go:CurrentPackage.Define(%s => (+ a %d), NoExport=%v)", c13Names[o.a], o.b, !o.exp)
+	case "Q", "D", "H":
+		sym := pn(o.a) + ":" + c13Names[o.b]
+		if o.priv || o.kind == "H" {
+			sym = pn(o.a) + "::" + c13Names[o.b]
+		}
+		switch {
+		case o.kind == "Q":
+			return fmt.Sprintf("(setq %s %d)", sym, o.v)
+		case o.kind == "H":
+			return fmt.Sprintf("(defun %s (a) (+ a %d))", sym, o.v)
+		case o.v < 0:
+			return fmt.Sprintf("(defvar %s)", sym)
+		}
+		return fmt.Sprintf("(defvar %s %d)", sym, o.v)
+	case "N":
+		return fmt.Sprintf("(unintern '%s '%s)", c13Names[o.b], pn(o.a))
+	case "T":
+		return fmt.Sprintf("(intern %q '%s)", c13Names[o.b], pn(o.a))
 	}
 	return ";; observe"
 }
@@ -316,9 +364,13 @@ func c13Same(items ...string) string {
 // c13Observe resolves every name from every defined package; undefined packages give "_".
 func c13Observe(suffix string, defined []bool, cur int, skipName []bool) string {
 	var items []string
+	// symbols are case insensitive: outside the (large) bounded-exhaustive families every lookup is
+	// also made with another spelling (Qxa, QXA, Vp1:Qxa …) and must agree with the lower-case one
+	spell := !strings.HasPrefix(suffix, "y")
+	mixed := func(s string) string { return strings.ToUpper(s[:1]) + s[1:] }
 	for c := 0; c < c13NPk; c++ {
 		if !defined[c] {
-			for i := 0; i < c13NNm*3+c13NPk*c13NNm*4; i++ {
+			for i := 0; i < c13NNm*c13NOwn+c13NPk*c13NNm*4; i++ {
 				items = append(items, "_")
 			}
 			continue
@@ -327,12 +379,15 @@ func c13Observe(suffix string, defined []bool, cur int, skipName []bool) string 
 		for n := 0; n < c13NNm; n++ {
 			name := c13Names[n]
 			if skipName[n] {
-				items = append(items, "_", "_", "_")
+				items = append(items, "_", "_", "_", "_")
 				continue
 			}
 			// variable: plain evaluation, symbol-value, boundp
 			v1 := c13Item(c13Eval(name), "unbound-variable")
 			v2 := c13Item(c13Eval("(symbol-value '"+name+")"), "unbound-variable")
+			if spell {
+				v2 = c13Same(v2, c13Item(c13Eval(strings.ToUpper(name)), "unbound-variable"))
+			}
 			b := c13Item(c13Eval("(boundp '"+name+")"), "")
 			vb := "-"
 			if b == "t" {
@@ -354,7 +409,26 @@ func c13Observe(suffix string, defined []bool, cur int, skipName []bool) string 
 			items = append(items, fb)
 			f1 := c13Item(c13Eval("("+name+" 0)"), "undefined-function")
 			f2 := c13Item(c13Eval("(funcall '"+name+" 0)"), "undefined-function")
+			if spell {
+				f2 = c13Same(f2, c13Item(c13Eval("("+mixed(name)+" 0)"), "undefined-function"))
+			}
 			items = append(items, c13Same(f1, f2))
+			// status of the name in the package: (find-symbol "n") => nil / :internal / :external / :inherited
+			st := c13Eval("(nth-value 1 (find-symbol \"" + name + "\"))")
+			item := c13Item(st, "")
+			if st.Ok {
+				switch st.Text {
+				case "nil":
+					item = "0"
+				case ":internal":
+					item = "1"
+				case ":external":
+					item = "2"
+				case ":inherited":
+					item = "3"
+				}
+			}
+			items = append(items, item)
 		}
 		for q := 0; q < c13NPk; q++ {
 			for n := 0; n < c13NNm; n++ {
@@ -364,10 +438,16 @@ func c13Observe(suffix string, defined []bool, cur int, skipName []bool) string 
 				}
 				qn := c13PkgName(suffix, q)
 				name := c13Names[n]
+				qv := c13Item(c13Eval(qn+":"+name), "unbound-variable")
+				qf := c13Item(c13Eval("("+qn+":"+name+" 0)"), "undefined-function")
+				if spell {
+					qv = c13Same(qv, c13Item(c13Eval(mixed(qn)+":"+strings.ToUpper(name)), "unbound-variable"))
+					qf = c13Same(qf, c13Item(c13Eval("("+qn+":"+mixed(name)+" 0)"), "undefined-function"))
+				}
 				items = append(items,
-					c13Item(c13Eval(qn+":"+name), "unbound-variable"),
+					qv,
 					c13Item(c13Eval(qn+"::"+name), "unbound-variable"),
-					c13Item(c13Eval("("+qn+":"+name+" 0)"), "undefined-function"),
+					qf,
 					c13Item(c13Eval("("+qn+"::"+name+" 0)"), "undefined-function"))
 			}
 		}
@@ -392,7 +472,7 @@ func c13RunImpl(ops []c13Op, suffix string) (reply string) {
 		}
 		for _, o := range ops {
 			switch o.kind {
-			case "E", "Z":
+			case "E", "Z", "Q", "D", "H", "N", "T":
 				skipName[o.b] = false
 			case "V", "W", "S", "F", "M", "K", "G":
 				skipName[o.a] = false
@@ -582,7 +662,11 @@ func c13ImplAll(hs []c13History) []string {
 // ---------------------------------------------------------------------------------------------
 // comparison and signatures
 
-var c13ItemKinds = []string{"var", "fboundp", "call"}
+var c13ItemKinds = []string{"var", "fboundp", "call", "status"}
+
+// c13NOwn: lookups per (current package, name) before the qualified block
+const c13NOwn = 4
+
 var c13QualKinds = []string{"qvar", "qqvar", "qfun", "qqfun"}
 
 type c13Diff struct {
@@ -597,32 +681,36 @@ type c13Diff struct {
 
 // c13Locate maps an item index to (current package, kind, q, name)
 func c13Locate(i int) (c int, kind string, q, n int) {
-	per := c13NNm*3 + c13NPk*c13NNm*4
+	per := c13NNm*c13NOwn + c13NPk*c13NNm*4
 	c = i / per
 	r := i % per
-	if r < c13NNm*3 {
-		return c, c13ItemKinds[r%3], -1, r / 3
+	if r < c13NNm*c13NOwn {
+		return c, c13ItemKinds[r%c13NOwn], -1, r / c13NOwn
 	}
-	r -= c13NNm * 3
+	r -= c13NNm * c13NOwn
 	q = r / (c13NNm * 4)
 	r %= c13NNm * 4
 	return c, c13QualKinds[r%4], q, r / 4
 }
 
 func c13Index(c int, kind string, q, n int) int {
-	per := c13NNm*3 + c13NPk*c13NNm*4
+	per := c13NNm*c13NOwn + c13NPk*c13NNm*4
 	for k, kn := range c13ItemKinds {
 		if kn == kind {
-			return c*per + n*3 + k
+			return c*per + n*c13NOwn + k
 		}
 	}
 	for k, kn := range c13QualKinds {
 		if kn == kind {
-			return c*per + c13NNm*3 + q*c13NNm*4 + n*4 + k
+			return c*per + c13NNm*c13NOwn + q*c13NNm*4 + n*4 + k
 		}
 	}
 	return -1
 }
+
+// c13TieBreakDivergences counts histories whose comparison stopped at an allowed, but different,
+// choice among conflicting exporters (evidence only).
+var c13TieBreakDivergences int
 
 // c13Compare returns the first disagreement (block order, then item order), or nil.
 func c13Compare(h c13History, impl, model string) *c13Diff {
@@ -667,6 +755,27 @@ func c13Compare(h c13History, impl, model string) *c13Diff {
 			if mi[i] == ii[i] || mi[i] == "?" || ii[i] == "_" {
 				continue
 			}
+			if strings.Contains(mi[i], "~") {
+				// name conflict: no own definition and several used packages export the name. The
+				// property allows any of them (lookup_sound); the first alternative is the one the
+				// repaired implementation picks today. Another allowed exporter is no violation, but
+				// from here on the implementation and the model may legitimately differ (assignments
+				// through the name reach another owner): the rest of this history is not compared.
+				alts := strings.Split(mi[i], "~")
+				if ii[i] == alts[0] {
+					continue
+				}
+				allowed := false
+				for _, a := range alts[1:] {
+					if a == ii[i] {
+						allowed = true
+					}
+				}
+				if allowed {
+					c13TieBreakDivergences++
+					return nil
+				}
+			}
 			c, kind, q, n := c13Locate(i)
 			return &c13Diff{block: b, opIndex: before[b], c: c, q: q, n: n, kind: kind, expected: mi[i], observed: ii[i], mblock: mi}
 		}
@@ -693,6 +802,14 @@ func c13Signature(h c13History, d *c13Diff) string {
 		return pre + "op=" + opk + " lookup=none effect=op-" + strings.ReplaceAll(d.observed, " ", "-")
 	case "shape":
 		return pre + "op=" + opk + " lookup=none effect=shape"
+	case "status":
+		return pre + "op=" + opk + " lookup=find-symbol effect=status-" + c13StatusName(d.expected) + "-seen-" + c13StatusName(d.observed)
+	}
+	if strings.Contains(d.expected, "~") {
+		// a conflict cell that shows none of the allowed exporters: classify by the first alternative
+		dd := *d
+		dd.expected = strings.SplitN(d.expected, "~", 2)[0]
+		d = &dd
 	}
 	vf := "var"
 	tab := "qqvar" // which model item tells the current own definition of a package
@@ -758,8 +875,32 @@ func c13Signature(h c13History, d *c13Diff) string {
 	return pre + "op=" + opk + " lookup=" + lookup + " effect=" + effect
 }
 
+func c13StatusName(s string) string {
+	switch s {
+	case "0":
+		return "none"
+	case "1":
+		return "internal"
+	case "2":
+		return "external"
+	case "3":
+		return "inherited"
+	}
+	return strings.TrimPrefix(s, "E:")
+}
+
 func c13OpName(o c13Op) string {
 	switch o.kind {
+	case "Q":
+		return "setq-qualified"
+	case "D":
+		return "defvar-qualified"
+	case "H":
+		return "defun-qualified"
+	case "N":
+		return "unintern"
+	case "T":
+		return "intern"
 	case "P":
 		return "defpackage"
 	case "I":
@@ -801,6 +942,8 @@ func (d *c13Diff) describe(h c13History) (observed, expected string) {
 		form = "(fboundp '" + name + ")"
 	case "call":
 		form = "(" + name + " 0) / (funcall '" + name + " 0)"
+	case "status":
+		form = "(find-symbol \"" + name + "\") status (0 none, 1 :internal, 2 :external, 3 :inherited)"
 	case "qvar":
 		form = c13PkgName("", d.q) + ":" + name
 	case "qqvar":
@@ -910,6 +1053,10 @@ func (g *c13Gen) ok(o c13Op) bool {
 		if o.one && o.a != g.cur {
 			return false
 		}
+	case "Q", "D", "H", "N", "T":
+		if !g.defined[o.a] || g.cur < 0 {
+			return false
+		}
 	case "V", "W", "S", "F", "M", "K", "G":
 		if g.cur < 0 {
 			return false
@@ -935,6 +1082,11 @@ func c13Alphabet(g *c13Gen) []c13Op {
 			}
 		}
 		for n := 0; n < c13NNm; n++ {
+			out = append(out,
+				c13Op{kind: "Q", a: p, b: n, v: 950 + n, priv: true}, c13Op{kind: "Q", a: p, b: n, v: 952 + n},
+				c13Op{kind: "D", a: p, b: n, v: 954 + n, priv: true}, c13Op{kind: "D", a: p, b: n, v: 956 + n},
+				c13Op{kind: "D", a: p, b: n, v: -1, priv: true},
+				c13Op{kind: "H", a: p, b: n, v: 958 + n}, c13Op{kind: "N", a: p, b: n}, c13Op{kind: "T", a: p, b: n})
 			out = append(out, c13Op{kind: "E", a: p, b: n}, c13Op{kind: "Z", a: p, b: n})
 			if p == g.cur {
 				out = append(out, c13Op{kind: "E", a: p, b: n, one: true}, c13Op{kind: "Z", a: p, b: n, one: true})
@@ -1017,27 +1169,44 @@ func c13RandomOp(r *lib.Rng, g *c13Gen) c13Op {
 	for {
 		var o c13Op
 		switch x := r.Intn(100); {
-		case x < 12:
+		case x < 10:
 			o = c13Op{kind: "I", a: pk()}
-		case x < 24:
+		case x < 20:
+			// operations that name their package: qualified setq / defvar / defun, unintern, intern
+			switch y := r.Intn(10); {
+			case y < 3:
+				o = c13Op{kind: "Q", a: pk(), b: nm(), priv: r.Chance(70)}
+			case y < 5:
+				o = c13Op{kind: "D", a: pk(), b: nm(), priv: r.Chance(70)}
+				if r.Chance(15) {
+					o.v = -1
+				}
+			case y < 7:
+				o = c13Op{kind: "H", a: pk(), b: nm()}
+			case y < 9:
+				o = c13Op{kind: "N", a: pk(), b: nm()}
+			default:
+				o = c13Op{kind: "T", a: pk(), b: nm()}
+			}
+		case x < 31:
 			o = c13Op{kind: "U", a: pk(), b: pk()}
-		case x < 32:
+		case x < 38:
 			o = c13Op{kind: "X", a: pk(), b: pk()}
-		case x < 44:
+		case x < 49:
 			o = c13Op{kind: "E", a: pk(), b: nm()}
-		case x < 52:
+		case x < 56:
 			o = c13Op{kind: "Z", a: pk(), b: nm()}
-		case x < 60:
-			o = c13Op{kind: "V", a: nm()}
 		case x < 63:
+			o = c13Op{kind: "V", a: nm()}
+		case x < 66:
 			o = c13Op{kind: "W", a: nm()}
-		case x < 71:
+		case x < 73:
 			o = c13Op{kind: "S", a: nm()}
-		case x < 80:
+		case x < 81:
 			o = c13Op{kind: "F", a: nm()}
-		case x < 84:
+		case x < 85:
 			o = c13Op{kind: "G", a: nm(), exp: r.Chance(60)}
-		case x < 89:
+		case x < 90:
 			o = c13Op{kind: "M", a: nm()}
 		case x < 94:
 			o = c13Op{kind: "K", a: nm()}
@@ -1068,6 +1237,12 @@ func c13RandomOp(r *lib.Rng, g *c13Gen) c13Op {
 		switch o.kind {
 		case "V", "S", "F", "G":
 			o.b = g.nextTag()
+		case "Q", "H":
+			o.v = g.nextTag()
+		case "D":
+			if o.v >= 0 {
+				o.v = g.nextTag()
+			}
 		}
 		return o
 	}
@@ -1102,7 +1277,7 @@ func c13Random(r *lib.Rng, n int, avoid bool) []c13History {
 
 // c13Exhaustive enumerates every history up to maxLen over a reduced alphabet: two packages
 // (p0 may use p1), one name, operations on the current package.
-func c13Exhaustive(maxLen int, three bool, avoid bool) []c13History {
+func c13Exhaustive(maxLen int, three bool, avoid bool, qualified ...bool) []c13History {
 	var hs []c13History
 	type sym struct {
 		kind string
@@ -1114,6 +1289,13 @@ func c13Exhaustive(maxLen int, three bool, avoid bool) []c13History {
 		// three packages, graph operations and one variable/function pair
 		alpha = []sym{{"I", 0, 0}, {"I", 1, 0}, {"I", 2, 0}, {"U", 0, 1}, {"U", 0, 2}, {"U", 1, 2}, {"X", 0, 1}, {"X", 0, 2}, {"Ec", 0, 0}, {"Zc", 0, 0}, {"S", 0, 0}, {"F", 0, 0}, {"M", 0, 0}, {"K", 0, 0}}
 		prefix = "P0:: P1:: P2:: I2"
+	}
+	if len(qualified) > 0 && qualified[0] {
+		// two packages, one name: the operations that name their package act on the OTHER package
+		// (qualified setq / defvar / defun, unintern, intern), next to the unqualified ones
+		alpha = []sym{{"I", 0, 0}, {"I", 1, 0}, {"U", 0, 1}, {"X", 0, 1}, {"Ec", 0, 0}, {"Zc", 0, 0}, {"S", 0, 0}, {"F", 0, 0}, {"M", 0, 0},
+			{"Qo", 0, 0}, {"Qs", 0, 0}, {"Do", 0, 0}, {"Ho", 0, 0}, {"No", 0, 0}, {"To", 0, 0}}
+		prefix = "P0:: P1:: I0"
 	}
 	pre, _ := c13ParseHistory(prefix)
 	var rec func(g c13Gen, depth int, lastI bool)
@@ -1147,6 +1329,18 @@ func c13Exhaustive(maxLen int, three bool, avoid bool) []c13History {
 				o = c13Op{kind: s.kind, a: 0, b: g.tag + 1}
 			case "M", "K":
 				o = c13Op{kind: s.kind, a: 0}
+			case "Qo":
+				o = c13Op{kind: "Q", a: 1 - g.cur, b: 0, v: g.tag + 1, priv: true}
+			case "Qs":
+				o = c13Op{kind: "Q", a: 1 - g.cur, b: 0, v: g.tag + 1}
+			case "Do":
+				o = c13Op{kind: "D", a: 1 - g.cur, b: 0, v: g.tag + 1, priv: true}
+			case "Ho":
+				o = c13Op{kind: "H", a: 1 - g.cur, b: 0, v: g.tag + 1}
+			case "No":
+				o = c13Op{kind: "N", a: 1 - g.cur, b: 0}
+			case "To":
+				o = c13Op{kind: "T", a: 1 - g.cur, b: 0}
 			default:
 				o = c13Op{kind: s.kind, a: s.a, b: s.b}
 			}
@@ -1155,7 +1349,7 @@ func c13Exhaustive(maxLen int, three bool, avoid bool) []c13History {
 			}
 			g2 := g
 			g2.ops = append([]c13Op{}, g.ops...)
-			if o.kind == "V" || o.kind == "S" || o.kind == "F" {
+			if o.kind == "V" || o.kind == "S" || o.kind == "F" || o.kind == "Q" || o.kind == "D" || o.kind == "H" {
 				g2.tag++
 			}
 			g2.apply(o)
@@ -1295,14 +1489,23 @@ func runC13(c *lib.Ctx) {
 	var hs []c13History
 	sweep := c13Sweep()
 	hs = append(hs, sweep...)
-	random := c13Random(c.Rng, c.Scale(1500, 6000), avoid)
+	nRandom := c.Scale(1500, 6000)
+	if c.GenBroken != "" {
+		// an obligation over the regenerated code facts (Theorems/GenC13.lean) no longer holds: the
+		// code changed where the model mirrors it — search harder for a failing history
+		nRandom *= 3
+		c.Ev.Coverage["witness_search_for_broken_obligation"] = c.GenBroken
+	}
+	random := c13Random(c.Rng, nRandom, avoid)
 	hs = append(hs, random...)
 	// bounded-exhaustive families: short in the quick tier, up to the full bound in the thorough tier
 	e1 := c13Exhaustive(c.Scale(c13ExhLen2-1, c13ExhLen2), false, avoid)
 	e2 := c13Exhaustive(c.Scale(c13ExhLen3-2, c13ExhLen3), true, avoid)
-	nExh := len(e1) + len(e2)
+	e3 := c13Exhaustive(c.Scale(3, 4), false, avoid, true)
+	nExh := len(e1) + len(e2) + len(e3)
 	hs = append(hs, e1...)
 	hs = append(hs, e2...)
+	hs = append(hs, e3...)
 	for i := range hs {
 		hs[i].id = i
 	}
@@ -1406,12 +1609,13 @@ func runC13(c *lib.Ctx) {
 	c.Ev.Coverage["disagreement_signatures"] = sigs
 	c.Ev.Coverage["traces_validated_against_impl"] = len(hs)
 	c.Ev.Coverage["observation_points"] = observations
-	c.Ev.Coverage["lookups_compared"] = observations * c13NPk * (c13NNm*3 + c13NPk*c13NNm*4)
+	c.Ev.Coverage["lookups_compared"] = observations * c13NPk * (c13NNm*c13NOwn + c13NPk*c13NNm*4)
 	c.Ev.Coverage["agreements"] = agree
 	c.Ev.Coverage["sweep_cases"] = len(sweep)
 	c.Ev.Coverage["random_cases"] = len(random)
 	c.Ev.Coverage["exhaustive_cases"] = nExh
 	c.Ev.Coverage["avoids_transitive_use"] = avoid
+	c.Ev.Coverage["tie_break_divergences_not_compared_further"] = c13TieBreakDivergences
 	c.Ev.Coverage["rule"] = "case = one history (operation tokens); sweep = every single operation after each of the fixed prefixes (seed independent), random = 6..80 operations observed after every step, exhaustive (thorough) = every history of the reduced alphabet up to the bound; every observation resolves each of 2 names from each of 3 packages in 7 ways (variable, fboundp, call, q:n, q::n for variables and functions); non-trivial = >= 1 observation after >= 2 mutations, one of them after an earlier observation; distinct by token string"
 }
 
